@@ -16,10 +16,14 @@ def main(tier, seed):
         for i in range(parts):
             jobs.append(("props.flow", "run_scenario", (n, dict(policy="fifo", k=k, oracles=("c11",), targets="acts", skip_running_acts=True, part=(i, parts),
                                                                  max_paths=400 if tier == "quick" else 10000, seed=seed), "C11")))
+        # keep_processes: the rows of an ended process stay and must show the states its tasks ended in (abort / error / skip endings included)
+        if tier != "quick" or n in QUICK[:6]:
+            jobs.append(("props.flow", "run_scenario", (n, dict(policy="fifo", k=1, keep=True, kinds=["Next", "Abort", "Skip", "Error", "Submit"], oracles=("c11",), targets="acts",
+                                                                 skip_running_acts=True, max_paths=300 if tier == "quick" else 2000, seed=seed), "C11")))
         jobs.append(("props.flow", "run_scenario", (n, dict(policy="lifo", k=0, error_script=True, oracles=("c11",), max_paths=200, seed=seed), "C11")))
     c.run_jobs(jobs)
     return c.finish(
         rule="at every quiescent state of every path the task rows and the process row read back through the real (memory) collection are compared field by field with "
              "Task::into_data / Process::into_data of the live objects (field equality is a z3 validity query where values are symbolic)",
         assumptions=ASSUME + ["byte-level serialisation is modelled structurally (a stored string is the JSON value it encodes)"],
-        bounds=dict(scenarios=names, script_len=k, backends="memory"))
+        bounds=dict(scenarios=names, script_len=k, backends="memory", keep_processes="default at every quiescent state; true: additionally the task states of the ended process (one action, then answer everything)"))
